@@ -37,12 +37,13 @@ CHECKS["C04"] = dict(
 CHECKS["C02"] = dict(
     level="exploration",
     technique="acknowledgement ledger: every wait-function return is stamped with the store's logical sequence number and judged offline against the object-store versions readable at that instant, the committed tree and the final stored leaves; fault placements of the serving round enumerated; race detector on the free-running workload",
-    text="Waiters block concurrently in their wait functions while the round runs with the checkpoint upload delayed inside the backend call; each acknowledgement is stamped with the world sequence number at return and then checked: a verified checkpoint readable at that instant covers the index, the data tile readable at that instant holds exactly the submitted entry with that timestamp, and the same holds in the lock-committed tree and in the final stored tree after fault placements (every op x applied/not), crashes at every op of the following round, and restart. A free-running RunSequencer with 8-24 concurrent submitters (new + duplicate entries; pool, in-sequencing and cache paths) is judged the same way, also under -race. The HTTP/SCT clause is exercised by the C09 workload and by a system-level workload: the built cmd/sunlight binary under 12 concurrent HTTP submitters, each 200 answer judged against the checkpoint file readable at that moment and the SCT verified over the independently derived leaf.",
+    text="Waiters block concurrently in their wait functions while the round runs with the checkpoint upload delayed inside the backend call; each acknowledgement is stamped with the world sequence number at return and then checked: a verified checkpoint readable at that instant covers the index, the data tile readable at that instant holds exactly the submitted entry with that timestamp, and the same holds in the lock-committed tree and in the final stored tree after fault placements (every op x applied/not), crashes at every op of the following round, and restart. A free-running RunSequencer with 8-24 concurrent submitters (new + duplicate entries; pool, in-sequencing and cache paths) is judged the same way, also under -race. The HTTP/SCT clause is exercised by the C09 workload and by a system-level workload: the built cmd/sunlight binary under 12 concurrent HTTP submitters, each 200 answer judged against the checkpoint file readable at that moment and the SCT verified over the independently derived leaf; the same workload also runs against the server binary built with the race detector (reports with repository frames are violations).",
     note="Trusted: harness stores and their sequence numbers (ack instant is read under the store mutex), reference decoder, ct-go signature verifier. Crash after acknowledgement is modelled at storage-call boundaries.",
     design_ref="DESIGN.md section 3, C02",
     parts=[P("phases", "^TestC02Phases$", shards=(8, 16)), P("stress", "^TestC02Stress$", shards=(2, 4)),
            P("stress-race", "^TestC02Stress$", race=True, shards=(1, 4)),
-           P("sysacks", "^TestSysAcks$", shards=(2, 6), bins=("sunlight",), env={"VERIF_SYS_PROPERTY": "C02"})],
+           P("sysacks", "^TestSysAcks$", shards=(2, 6), bins=("sunlight",), env={"VERIF_SYS_PROPERTY": "C02"}),
+           P("sysacks-race", "^TestSysAcks$", shards=(1, 4), bins=("sunlight.race",), env={"VERIF_SYS_PROPERTY": "C02", "VERIF_SYS_RACE": "1"})],
     floor=200,
 )
 
